@@ -26,9 +26,9 @@ Definition wrongcell_witness : tm :=
 
 (* the update frame writes into the wrong cell: [a] is overwritten with the value of [b] *)
 Lemma need_wrongcell_refuted :
-  exists t, acyclic t = true /\ ~ refines_on [] WrongCell t.
+  exists t, wft t = true /\ acyclic t = true /\ ~ refines_on [] WrongCell t.
 Proof.
-  exists wrongcell_witness. split; [reflexivity|]. intros H.
+  exists wrongcell_witness. split; [reflexivity|]. split; [reflexivity|]. intros H.
   destruct (H 20 (Ok (DNum 4)) (snd (runN [] WrongCell 20 wrongcell_witness)))
     as [m Hm]; [vm_compute; reflexivity|discriminate|discriminate|].
   revert m Hm. apply (run_differs [] wrongcell_witness 20 (Ok (DNum 3)));
@@ -41,9 +41,9 @@ Definition callerenv_witness : tm :=
 
 (* the closure body runs in the caller's environment (dynamic scoping) *)
 Lemma need_callerenv_refuted :
-  exists t, acyclic t = true /\ ~ refines_on [] CallerEnv t.
+  exists t, wft t = true /\ acyclic t = true /\ ~ refines_on [] CallerEnv t.
 Proof.
-  exists callerenv_witness. split; [reflexivity|]. intros H.
+  exists callerenv_witness. split; [reflexivity|]. split; [reflexivity|]. intros H.
   destruct (H 20 (Ok (DNum 2)) (snd (runN [] CallerEnv 20 callerenv_witness)))
     as [m Hm]; [vm_compute; reflexivity|discriminate|discriminate|].
   revert m Hm. apply (run_differs [] callerenv_witness 20 (Ok (DNum 1)));
@@ -91,12 +91,22 @@ Example acyclic_witness :
   let t := Let "d" (Bin Add (Num 1) (Num 2))
              (Let "f" (Lam "u" (Bin Mul (Var "u") (Var "d")))
                 (Rec [("a", App (Var "f") (Var "d")); ("b", Arr [App (Var "f") (Num 2); Var "d"])])) in
-  acyclic t = true /\
+  wft t = true /\ acyclic t = true /\
   fst (runN [] Good 30 t) = Ok (DRec [("a", DNum 9); ("b", DArr [DNum 6; DNum 3])]) /\
   run [] 30 [] t = Ok (DRec [("a", DNum 9); ("b", DArr [DNum 6; DNum 3])]).
 Proof. vm_compute. auto. Qed.
 
-(* black-holing: a cyclic program is reported, not looped on (outside the proved fragment) *)
+(* need_refines_name on the cyclic part: a recursive function and a recursive record *)
+Example cyclic_witness :
+  let t := LetRec "f" (Lam "n" (If (Bin Lth (Var "n") (Num 1)) (Num 0)
+                                  (Bin Add (App (Var "f") (Bin Sub (Var "n") (Num 1))) (Var "n"))))
+             (Rec [("a", App (Var "f") (Num 3)); ("b", Bin Mul (Var "a") (Var "a")); ("c", Num 1)]) in
+  wft t = true /\ acyclic t = false /\
+  fst (runN [] Good 40 t) = Ok (DRec [("a", DNum 6); ("b", DNum 36); ("c", DNum 1)]) /\
+  run [] 40 [] t = Ok (DRec [("a", DNum 6); ("b", DNum 36); ("c", DNum 1)]).
+Proof. vm_compute. auto. Qed.
+
+(* black-holing: a cyclic definition is reported, not looped on (S diverges) *)
 Example blackhole_witness :
   fst (runN [] Good 30 (LetRec "x" (Var "x") (Var "x"))) = Err InfiniteRec /\
   run [] 30 [] (LetRec "x" (Var "x") (Var "x")) = OutOfFuel.
